@@ -55,6 +55,7 @@ type Exec struct {
 	initHeaps map[string]*heapNode
 	typeCache map[string]types.Type
 	recDepth  int
+	inRec     int
 	loops     map[*ssa.BasicBlock]*loopInfo
 	paths     int
 	entry     *snapshot // pre-state of the function under verification
@@ -253,6 +254,10 @@ func (x *Exec) verify() (err error) {
 		}
 	}
 	env := &Env{x: x, st: st, old: x.entry, vars: vars, what: x.fname + " requires"}
+	for _, c := range x.prog.spec.GlobalInvs {
+		env.what = "globalinv"
+		st.assume(env.evalBool(c.Expr))
+	}
 	for _, eg := range x.spec.EntryGhost {
 		env.what = x.fname + " entry-ghost"
 		p := env.evalPlace(eg[0].Expr)
@@ -612,7 +617,8 @@ func (x *Exec) havocLoop(st *State, fr *Frame, li *loopInfo) {
 	entryMods := x.modAddrs
 	allocEntry := x.allocEntry
 	modAll := x.modAll
-	keepFor := func(sort string) func(Term) Term {
+	keepFor := func(hkey string) func(Term) Term {
+		sort := keySort(hkey)
 		return func(a Term) Term {
 			var stab []Term
 			for _, r := range stable {
@@ -650,7 +656,7 @@ func (x *Exec) havocLoop(st *State, fr *Frame, li *loopInfo) {
 		}
 	}
 	if all || nonlocal || len(localRoots) > 0 {
-		for _, s := range []string{"Bool", "Int", "String", "Ref"} {
+		for _, s := range []string{"Bool", "Int", "String", "Ref", "g:Bool", "g:Int", "g:String", "g:Ref"} {
 			st.heapOf(st.heaps, s)
 		}
 		for s := range x.initHeaps {
@@ -1402,6 +1408,12 @@ func (x *Exec) checkPost(st *State, res Val, pos token.Pos) {
 	}
 	bindResults(vars, x.fn.Signature, x.spec.Results, res)
 	env := &Env{x: x, st: st, old: x.entry, vars: vars}
+	if len(st.iterSnaps) == 1 {
+		// a return out of the (only) loop: atiter() refers to the start of the iteration that returns
+		for _, sn := range st.iterSnaps {
+			env.iterSnap = sn
+		}
+	}
 	for k, c := range x.spec.Ens {
 		env.what = fmt.Sprintf("%s ensures (%s:%d)", x.fname, shortFile(c.File), c.Line)
 		d := fmt.Sprint(k)
